@@ -95,6 +95,8 @@ class PathMgr:
         self.decisions: List[int] = list(decisions)
         self.pos = 0
         self.pc: List[Any] = []
+        self.pc_axiom: List[bool] = []
+        self.sub_depth = 0
         self.st = State()
         self.old: Optional[State] = None
         self.next_ref = smt.FRESH_BASE
@@ -236,13 +238,87 @@ class PathMgr:
             return False
         return self.choose([c, z3.Not(c)]) == 0
 
-    def _add_pc(self, c) -> None:
+    def _add_pc(self, c, axiom: bool = False) -> None:
         c = smt.simp(c)
         if z3.is_true(c):
             return
         self.pc.append(c)
+        self.pc_axiom.append(axiom)
         self.solver.add(c)
         self._learn(c)
+
+    def _add_axiom(self, c) -> None:
+        """a fact valid in every execution (well-formedness of the heap model, class of an allocation...):
+        it survives sub-explorations and is never part of a merged guard"""
+        self._add_pc(c, axiom=True)
+
+    # ------------------------------------------------------------------ sub-exploration (merging)
+    def sub_explore(self, thunk):
+        """Enumerate every sub-path of thunk() from the current state and return
+        [(guard, kind, value, state_after)], kind in {'ret','raise'}; the current path is left as it was,
+        plus the axioms the sub-paths produced.  Used to evaluate pure spec / contract clauses into ONE
+        formula instead of forking the enclosing path."""
+        from .core import PyRaise, Infeasible
+        base = len(self.pc)
+        saved_st = self.st.snapshot()
+        saved = (self.decisions, self.pos, self.pending, dict(self.known_cls), dict(self.hint_cls),
+                 self._solver_bg, set(self._bg_done), set(self.classes_used), len(self.dict_probes),
+                 len(self.attr_reads), self.depth, list(self.exc_stack), len(self.writes))
+        sub_pending = [[]]
+        results = []
+        axioms = []
+        self.sub_depth += 1
+        try:
+            while sub_pending:
+                dec = sub_pending.pop()
+                self.decisions, self.pos, self.pending = list(dec), 0, sub_pending
+                self.solver.push()
+                try:
+                    try:
+                        v = thunk()
+                        kind = 'ret'
+                    except PyRaise as pr:
+                        v, kind = pr.exc, 'raise'
+                    guard = [c for c, ax in zip(self.pc[base:], self.pc_axiom[base:]) if not ax]
+                    results.append((z3.And(*guard) if guard else z3.BoolVal(True), kind, v, self.st.snapshot()))
+                except Infeasible:
+                    pass
+                finally:
+                    axioms.extend(c for c, ax in zip(self.pc[base:], self.pc_axiom[base:]) if ax)
+                    self.solver.pop()
+                    del self.pc[base:]
+                    del self.pc_axiom[base:]
+                    self.st.restore(saved_st)
+                    self.known_cls, self.hint_cls = dict(saved[3]), dict(saved[4])
+                    self._solver_bg, self._bg_done = saved[5], set(saved[6])
+                    self.depth, self.exc_stack = saved[10], list(saved[11])
+                    del self.writes[saved[12]:]
+        finally:
+            self.sub_depth -= 1
+            self.decisions, self.pos, self.pending = saved[0], saved[1], saved[2]
+        seen = set()
+        for c in axioms:
+            if c.get_id() not in seen:
+                seen.add(c.get_id())
+                self._add_axiom(c)
+        return results
+
+    def merged_truth(self, thunk, what: str = ''):
+        """z3 Bool: thunk() (a pure clause) evaluates to a truthy value; a raising sub-path makes the
+        clause ill-defined -> Unsupported"""
+        from .core import Unsupported
+        rs = self.sub_explore(thunk)
+        disj = []
+        for guard, kind, v, _ in rs:
+            if kind == 'raise':
+                c = self.class_of(v)
+                if self.feasible(guard):
+                    raise Unsupported(f'clause {what} can raise {c.name if c else "?"}')
+                continue
+            disj.append(z3.And(guard, v))
+        if not disj:
+            return z3.BoolVal(False)
+        return smt.simp(z3.Or(*disj))
 
     def _learn(self, c) -> None:
         """record class hints from isinstance facts that became part of the pc"""
@@ -332,7 +408,7 @@ class PathMgr:
         for n in list(self.st.attrs):
             self.st.attrs[n] = z3.Store(self.st.attrs[n], r, smt.ABSENT)
         self.use_class(c)
-        self._add_pc(smt.cls_of(r) == c.cid)
+        self._add_axiom(smt.cls_of(r) == c.cid)
         v = smt.mk_ref(r)
         self.known_cls[smt.simp(v).get_id()] = c
         return v
@@ -344,7 +420,7 @@ class PathMgr:
         self.fresh_refs.append(r)
         for n in list(self.st.attrs):
             self.st.attrs[n] = z3.Store(self.st.attrs[n], r, smt.ABSENT)
-        self._add_pc(smt.cls_of(r) == cid_term)
+        self._add_axiom(smt.cls_of(r) == cid_term)
         return smt.mk_ref(r)
 
     def bound_ref(self, v) -> None:
@@ -356,7 +432,7 @@ class PathMgr:
         self.use_class(T)
         self.use_class(F)
         r = Val.r(v)
-        self._add_pc(z3.Implies(Val.is_ref(v), z3.And(r < self.next_ref, z3.Implies(
+        self._add_axiom(z3.Implies(Val.is_ref(v), z3.And(r < self.next_ref, z3.Implies(
             r < 0, z3.Or(smt.cls_of(r) == T.cid, smt.cls_of(r) == F.cid)))))
 
     def class_of(self, v) -> Optional[ClassInfo]:
